@@ -1,9 +1,18 @@
 use crate::interp::Interpreter;
-use crate::{BindContext, CelContext};
+use crate::{BindContext, CelContext, CelValue};
+use std::collections::HashMap;
 
 pub(super) fn setup_context<'a>(ctx: &'a Interpreter<'a>) -> (CelContext, BindContext<'a>) {
     (
         ctx.cel_copy().unwrap_or_else(CelContext::new),
         ctx.bindings_copy().unwrap_or_else(BindContext::new),
     )
+}
+
+/// The keys of a map in one fixed (lexicographic) order, so that macros over maps
+/// give the same result on every run.
+pub(super) fn sorted_keys(map: HashMap<String, CelValue>) -> Vec<String> {
+    let mut keys: Vec<String> = map.into_keys().collect();
+    keys.sort();
+    keys
 }
